@@ -52,7 +52,20 @@ def operator(live, exact):
     if key not in _SL:
         _SL.clear() if len(_SL) > 8 else None
         with repo.quiet():
-            _SL[key] = (live, SingleLayerOperator(live.mesh, pw_exact=exact))
+            SL = SingleLayerOperator(live.mesh, pw_exact=exact)
+            # the driver uses one operator object for everything: depending on the mesh size, one of its other public
+            # methods is called first (with non-default arguments), which must not change any later result
+            leaves = list(live.mesh.leaf_elements)
+            mode = len(leaves) % 5
+            if mode == 1:
+                SL.rhs_vector(lambda t, x: t * 0 + 1.0, gauss_order=[1, 3, 5][len(leaves) % 3])
+            elif mode == 2:
+                SL.evaluate_vector(float(leaves[0].time_interval[1]), float(0.5 * sum(leaves[0].space_interval)))
+            elif mode == 3:
+                SL.bilform_matrix(leaves[:2], leaves[:3])
+            elif mode == 4:
+                SL.potential_vector(float(leaves[-1].time_interval[1]), np.array([[0.31], [0.17]]))
+            _SL[key] = (live, SL)
     return _SL[key][1]
 
 
